@@ -24,6 +24,10 @@ type dataChunk struct {
 	rewriting bool
 	gcbufsize uint32
 	gcWriter  *DataStreamWriter
+
+	// rewriteDone: GC has gone through all of this file's own records while
+	// rewriting it in place; only then is everything beyond the write head stale
+	rewriteDone bool
 }
 
 func (dc *dataChunk) GoString() string {
@@ -199,6 +203,7 @@ func (dc *dataChunk) beginGCWriting(srcChunk int) (err error) {
 	logger.Infof("BeginGCWriting chunk %d from %d rewrite %v size %d wsize %d ", dc.chunkid, srcChunk, dc.rewriting, dc.size, dc.writingHead)
 	if dc.chunkid == srcChunk {
 		dc.rewriting = true
+		dc.rewriteDone = false
 		dc.writingHead = 0
 		logger.Infof("rewrite %s", dc.path)
 	} else {
@@ -217,7 +222,11 @@ func (dc *dataChunk) beginGCWriting(srcChunk int) (err error) {
 // if the process dies before the final truncate, recovery (last record in file
 // order wins) lets a stale older version override a newer one moved in below it.
 func (dc *dataChunk) dropStaleTail() {
-	if !dc.rewriting || dc.writingHead >= dc.size {
+	if !dc.rewriting {
+		return
+	}
+	dc.rewriteDone = true
+	if dc.writingHead >= dc.size {
 		return
 	}
 	// the file itself stays (the GC writer still has it open and goes on
@@ -237,12 +246,15 @@ func (dc *dataChunk) endGCWriting() (err error) {
 		dc.gcWriter.Close()
 		dc.gcWriter = nil
 	}
-	if dc.rewriting && (dc.writingHead < dc.size || dc.writingHead == 0) {
+	if dc.rewriting && dc.rewriteDone && (dc.writingHead < dc.size || dc.writingHead == 0) {
 		// (writingHead == 0: dropStaleTail left an empty file behind, remove it)
+		// A pass that ends before it is through with the file's own records (cancelled
+		// before the first file, read error) must not cut off what it has not looked at.
 		dc.Truncate(dc.writingHead)
 		dc.size = dc.writingHead
 	}
 	dc.rewriting = false
+	dc.rewriteDone = false
 	return
 }
 
